@@ -12,7 +12,7 @@
 From Coq Require Import List ZArith String.
 Import ListNotations.
 From Verif Require Import Common.Base Common.JsepNumeral Model.JsepMid Model.JsepMidSpec
-  Proofs.JsepMid Proofs.JsepMidGen Proofs.JsepMidWit Proofs.JsepMidInitial.
+  Proofs.JsepMid Proofs.JsepMidGen Proofs.JsepMidWit Proofs.JsepMidInitial Proofs.JsepMidStable Proofs.JsepMidBundle.
 Open Scope string_scope.
 
 (* the design witness: remote offer with one audio section mid "1"; answer;
@@ -39,31 +39,32 @@ Theorem c06_refuted_rejected_without_mid :
 Proof. exact wit_no_mid_refutes. Qed.
 Print Assumptions c06_refuted_rejected_without_mid.
 
-Theorem c06_refuted_numbering_order :
-  remote_ok wit_numbering /\ exists d, In d (generated wit_numbering) /\ ~ c06_holds d.
-Proof. exact wit_numbering_refutes. Qed.
-Print Assumptions c06_refuted_numbering_order.
-
 Theorem c06_refuted_counter_overflow :
   remote_ok wit_overflow /\ exists d, In d (generated wit_overflow) /\ ~ c06_holds d.
 Proof. exact wit_overflow_refutes. Qed.
 Print Assumptions c06_refuted_counter_overflow.
 
-(* over every history whose remote descriptions have pairwise distinct mids
-   and in which CreateOffer's numbering never produced a duplicate: every
+(* Histories: any interleaving of AddTransceiver, AddTrack, RemoveTrack, Stop,
+   CreateDataChannel, CreateOffer, CreateAnswer, SetLocalDescription and
+   SetRemoteDescription with offer, pranswer and answer.
+   Over every history whose remote descriptions have pairwise distinct mids
+   and in which greaterMid never overflowed at a CreateOffer: every
    description generated from a state inside the guard (answers: every kind has a
-   codec; offers: additionally no transceiver carries the mid of a remote
-   application section and an appended data section's mid Itoa(len) is not an
-   existing mid) satisfies all of C06 *)
+   codec; offers: additionally the counter does not overflow now, no transceiver
+   carries the mid of a remote application section and an appended data
+   section's mid Itoa(len) is not an existing mid) satisfies all of C06.
+   (Since the repair of CreateOffer's numbering loop no guard on the numbering
+   itself is left: see c06_numbering_ok_partial.) *)
 Theorem c06_partial : forall ops,
-  remote_ok ops -> numbering_ok_all ops ->
+  remote_ok ops -> nowrap_all ops ->
   forall s o d s', In (s, o, ODesc (Ok d), s') (trace ops) -> gen_guard s o -> c06_holds d.
 Proof. exact c06_partial_lemma. Qed.
 Print Assumptions c06_partial.
 
 (* with no guard at all: every description a connection generates before it
    has been given a remote description (any interleaving of AddTransceiver,
-   Stop, CreateDataChannel, CreateOffer, CreateAnswer, SetLocalDescription)
+   AddTrack, RemoveTrack, Stop, CreateDataChannel, CreateOffer, CreateAnswer,
+   SetLocalDescription)
    satisfies C06; mids are then "0", "1", ... and the data section's Itoa(len) is
    the next numeral.  The bound only says the history is shorter than MaxInt64. *)
 Theorem c06_before_remote_description : forall ops,
@@ -76,11 +77,83 @@ Print Assumptions c06_before_remote_description.
 (* the invariant behind it: in every such history the transceivers' set mids
    stay pairwise distinct *)
 Theorem c06_transceiver_mids_distinct : forall ops,
-  remote_ok ops -> numbering_ok_all ops ->
+  remote_ok ops -> nowrap_all ops ->
   forall s o out s', In (s, o, out, s') (trace ops) ->
   NoDup (set_mids (trs s)) /\ NoDup (set_mids (trs s')).
 Proof. exact trace_mids_distinct. Qed.
 Print Assumptions c06_transceiver_mids_distinct.
+
+(* numbering_ok (the numbering loop of CreateOffer leaves the transceivers with
+   pairwise distinct mids) characterised.  One state: pairwise distinct mids
+   before, no overflow of greaterMid during the loop => pairwise distinct mids
+   after - wherever the unset transceivers stand in the list and whatever the
+   current and the pending remote description contain. *)
+Theorem c06_numbering_ok_state_partial : forall s,
+  NoDup (set_mids (trs s)) -> offer_nowrap s = true -> numbering_ok s.
+Proof. exact numbering_ok_lemma. Qed.
+Print Assumptions c06_numbering_ok_state_partial.
+
+(* every state of every history (before and after every call), in any
+   signalling state: the numbering loop cannot produce a duplicate unless the
+   counter overflows - the recorded cause greater-mid-overflow, refuted above; the
+   causes fresh-mid-equals-existing-transceiver-mid and
+   fresh-mid-equals-pending-remote-mid are repaired *)
+Theorem c06_numbering_ok_partial : forall ops,
+  remote_ok ops -> nowrap_all ops ->
+  forall s o out s', In (s, o, out, s') (trace ops) ->
+  (offer_nowrap s = true -> numbering_ok s) /\ (offer_nowrap s' = true -> numbering_ok s').
+Proof. exact numbering_ok_trace_lemma. Qed.
+Print Assumptions c06_numbering_ok_partial.
+
+(* by signalling state: stable means no pending remote description (every
+   history, no guard) ... *)
+Theorem c06_stable_has_no_pending_description : forall ops,
+  sig (run ops) = Stable -> pend_remote (run ops) = None.
+Proof. exact stable_no_pending_lemma. Qed.
+Print Assumptions c06_stable_has_no_pending_description.
+
+(* ... and in state stable, with nothing pending, the next CreateOffer numbers
+   without a duplicate unless the counter overflows *)
+Theorem c06_numbering_ok_stable_partial : forall ops,
+  remote_ok ops -> nowrap_all ops -> sig (run ops) = Stable ->
+  pend_remote (run ops) = None /\ (offer_nowrap (run ops) = true -> numbering_ok (run ops)).
+Proof. exact numbering_ok_stable_lemma. Qed.
+Print Assumptions c06_numbering_ok_stable_partial.
+
+(* the mids the loop gives out differ from every mid of the current and of the
+   pending remote description and from the mid of every transceiver *)
+Theorem c06_fresh_mid_not_in_use_partial : forall s i t t',
+  offer_nowrap s = true ->
+  nth_error (trs s) i = Some t -> t_mid t = "" ->
+  nth_error (trs (offer_alloc s)) i = Some t' ->
+  (forall r, In r (remote_secs (cur_remote s)) \/ In r (remote_secs (pend_remote s)) -> t_mid t' <> r_mid r) /\
+  (forall u, In u (trs s) -> t_mid t' <> t_mid u).
+Proof. exact fresh_mid_not_in_use_lemma. Qed.
+Print Assumptions c06_fresh_mid_not_in_use_partial.
+
+(* the BUNDLE clause for answers, for any remote group value (absent, listing
+   only some of the sections, not a BUNDLE group at all): the answer's BUNDLE group
+   lists, in section order, exactly the offered mids that the remote group lists,
+   and a section has port 0 iff its mid is not listed there.  Guard: the offered
+   sections are usable and every kind has a codec (else sections are skipped /
+   written without mid: refuted above and in C07). *)
+Theorem c06_answer_bundle_partial : forall s s' a rd,
+  create_answer s = (s', Ok a) -> remote_desc s = Some rd ->
+  all_usable rd -> codecs_ok s ->
+  l_bundle a = filter (in_remote_group rd) (map r_mid (r_secs rd)) /\
+  map l_port0 (l_secs a) = map (fun m => negb (in_remote_group rd m)) (map r_mid (r_secs rd)) /\
+  sec_mids a = map Some (map r_mid (r_secs rd)).
+Proof. exact answer_bundle_lemma. Qed.
+Print Assumptions c06_answer_bundle_partial.
+
+(* in particular an offer without a=group is answered with every section at
+   port 0 and no BUNDLE group *)
+Theorem c06_answer_without_remote_group_partial : forall s s' a rd,
+  create_answer s = (s', Ok a) -> remote_desc s = Some rd ->
+  all_usable rd -> codecs_ok s -> r_group rd = None ->
+  l_bundle a = [] /\ (forall x, In x (l_secs a) -> l_port0 x = true).
+Proof. exact answer_without_group_lemma. Qed.
+Print Assumptions c06_answer_without_remote_group_partial.
 
 (* a numeral above g differs from every string that is not a numeral and from
    every numeral <= g (the allocation greaterMid+1 is fresh with respect to
@@ -101,7 +174,15 @@ Print Assumptions c06_itoa_injective.
 (* the premises of c06_partial are satisfiable on a history with three
    generated descriptions of 3, 4 and 5 sections *)
 Example c06_partial_nontrivial :
-  remote_ok ex_guarded /\ numbering_ok_all ex_guarded /\
+  remote_ok ex_guarded /\ nowrap_all ex_guarded /\
   (forall s o out s', In (s, o, out, s') (trace ex_guarded) -> gen_guard s o) /\
   map (fun d => List.length (l_secs d)) (generated ex_guarded) = [3; 4; 5]%nat.
 Proof. exact ex_guarded_ok. Qed.
+
+(* the premises of c06_answer_bundle_partial on an offer whose group "BUNDLE v d a"
+   omits the fourth section: BUNDLE v d a, fourth section port 0 *)
+Example c06_answer_bundle_nontrivial :
+  exists a, snd (create_answer (fst (set_remote init TOffer off_partial_group))) = Ok a /\
+    all_usable off_partial_group /\ codecs_ok (fst (set_remote init TOffer off_partial_group)) /\
+    l_bundle a = ["v"; "d"; "a"] /\ map l_port0 (l_secs a) = [false; false; false; true].
+Proof. exact ex_answer_bundle. Qed.
